@@ -55,7 +55,14 @@ def r9_units_table(run, tree):
     iof.check_units_library(run, tree)
 
 
-RULES = [r_init, r1_r2, r3, r4_r5, r6, r8_fresh_pieces, r9_units_table]
+def r10_units_handed_on(run, tree):
+    from . import io_folds as iof
+    run.rule("C14.R10", "every load hands the loader the dataset's own meta and its CURRENT units library (shared with C15.R9): units overridden with "
+             "ds.meta[...] + ds.set_units() before load() scale the particle and sink columns", "D7 history fold of io/ramses.py::RamsesDataset.load", "", floor=4)
+    iof.check_dataset_load_history(run, tree)
+
+
+RULES = [r10_units_handed_on, r_init, r1_r2, r3, r4_r5, r6, r8_fresh_pieces, r9_units_table]
 
 
 def t_part_space(run, tree):
